@@ -231,7 +231,7 @@ asn_parse(uint8_t *buf, size_t buf_size, size_t *offset, size_t *hdr_size,
 				if (dt_size)
 					break;
 			}
-			if (stm > sizeof(dt_size))
+			if (stm >= sizeof(dt_size)) /* One octet is in dt_size allready. */
 				return (EOVERFLOW);
 			while ((stm --) && max_pos > cur_pos) {
 				dt_size <<= 8;
